@@ -86,7 +86,12 @@ Definition result_class {A : Type} (r : result A) : N :=
 
 Inductive case :=
 | CHash (t : tx) (tbl : table) (impl : hashes)
-| CEnv (entry : N) (max_user : N) (payload : bytes) (consumed : option N) (impl_class : N).
+| CEnv (entry : N) (max_user : N) (payload : bytes) (consumed : option N) (impl_class : N)
+(* ledger payload: limit, bytes, bytes consumed by the nested transaction's decoder after the ledger header
+   (None = it fails), the implementation's result class and, when accepted, the variant code *)
+| CLedger (max_ledger : N) (payload : bytes) (consumed : option N) (impl_class : N) (impl_variant : N)
+(* ledger hash: variant code, hash of the nested transaction, hash table, implementation's ledger hash *)
+| CLedgerHash (variant : N) (inner : bytes) (tbl : table) (impl : bytes).
 
 Definition env_model (entry max_user : N) (payload : bytes) (consumed : option N) : N :=
   let s := settings_with_max max_user in
@@ -100,6 +105,24 @@ Definition env_model (entry max_user : N) (payload : bytes) (consumed : option N
   | _ => 99
   end.
 
+Definition variant_of_code (n : N) : ledger_variant :=
+  if n =? 0 then LGenesisFlash else if n =? 1 then LGenesisTransaction else if n =? 2 then LUserV1
+  else if n =? 3 then LRoundUpdateV1 else if n =? 4 then LFlashV1 else LUserV2.
+Definition ledger_settings (m : N) : settings := {|
+  v2_transactions_permitted := true;
+  max_user_payload_length := 1048576;
+  max_ledger_payload_length := m;
+  max_child_subintents_per_intent := 32;
+  max_subintents_per_transaction := 32;
+  max_blobs := 64 |}.
+(* result class and variant code of the model on a ledger payload *)
+Definition ledger_model (max_ledger : N) (payload : bytes) (consumed : option N) : N * N :=
+  match prepare_ledger unit (fun _ => fields_oracle consumed) EUnknownDiscriminator (ledger_settings max_ledger) payload with
+  | Ok (v, _) => (0, ledger_variant_code v)
+  | Err (EUnexpectedTransactionDiscriminator (Some d)) => (if 256 <=? d then 15 else 4, 99)
+  | Err e => (class_of e, 99)
+  end.
+
 Definition check (c : case) : bool :=
   match c with
   | CHash t tbl impl =>
@@ -110,4 +133,12 @@ Definition check (c : case) : bool :=
       let m := env_model entry max_user payload consumed in
       (* a failure inside the abstract field decoder matches any implementation error *)
       if m =? 10 then negb (impl_class =? 0) else m =? impl_class
+  | CLedger max_ledger payload consumed impl_class impl_variant =>
+      let '(m, v) := ledger_model max_ledger payload consumed in
+      if m =? 10 then negb (impl_class =? 0) else (m =? impl_class) && (v =? impl_variant)
+  | CLedgerHash variant inner tbl impl =>
+      let Ht := table_H tbl in
+      table_ok tbl && len32 inner
+      && in_table tbl (ledger_hash_input (ledger_kind_for_hash (variant_of_code variant)) inner)
+      && beqb (ledger_hash Ht (variant_of_code variant) inner) impl
   end.
